@@ -650,6 +650,37 @@ def sweep_lines(r, chunk, planes):
     return L
 
 
+
+def metric_lines(r, shim, ncases):
+    """per-glyph metric mutants: shape each fixture once, then give ONE glyph that occurs in its output an extreme horizontal
+    advance (0, 1, 0x7fff, 0x8000, 0xffff) — arithmetic on the advances of specific glyphs (stretching, justification, fallback
+    positioning, origins) must not trap or divide by zero"""
+    cases = r.shuffle([c for c in corpus.load() if os.path.getsize(c.font) < 1_500_000])[:ncases]
+    groups = corpus.font_groups(cases)
+    outs = vlib.run_groups(shim, [[reg] + [c.shape_line(fid) for c in cs] for fid, reg, cs in groups], timeout=600)
+    L = []
+    for (fid, reg, cs), o in zip(groups, outs):
+        font, idx = cs[0].font, cs[0].index
+        data = open(font, "rb").read()
+        recs = {x[0]: x for x in sfnt_dir(data)}
+        if "hmtx" not in recs or "hhea" not in recs or idx != 0: continue
+        ho = recs["hhea"][2]
+        if ho + 36 > len(data): continue
+        nlong = struct.unpack(">H", data[ho + 34:ho + 36])[0]
+        mo, ml = recs["hmtx"][2], recs["hmtx"][3]
+        for c, rep in zip(cs, o[1:]):
+            toks = rep.split()
+            if len(toks) < 3 or toks[0] != "ok": continue
+            gids = sorted({int(t.split(":")[0]) for t in toks[2:]})
+            gids = [g for g in gids if g < nlong and 4 * g + 2 <= ml]
+            text = [ord(ch) for ch in c.text]
+            d = c.dir or "-"
+            picks = [(g, 0) for g in (gids if len(gids) <= 12 else r.sample(gids, 12))]        # every output glyph once with advance 0
+            picks += [(g, r.choice([1, 0x7fff, 0x8000, 0xffff])) for g in r.sample(gids, min(2, len(gids)))]
+            for g, v in picks:
+                L.append(f"c01 {spec(font, idx, [f'w{mo + 4 * g}:{v:04x}'])} {d} - - 0 0 - - - {rle(text)} ser=1")
+    return L
+
 FILL_TABLES = ("hmtx", "vmtx", "hhea", "vhea", "OS/2", "VORG", "post", "kern", "GDEF")
 
 
@@ -763,6 +794,7 @@ def run(ctx):
     run_both(j, "config", config_lines(ctx.rng("config"), ctx.budget(2128, 2128 * 4)), timeout=900)
     run_both(j, "mutants", mutant_lines(ctx.rng("mutants"), ctx.budget(120000, 1000000)), timeout=900)
     run_both(j, "sweep", sweep_lines(ctx.rng("sweep"), ctx.budget(256, 64), ctx.budget([0, 1, 14], [0, 1, 2, 3, 14, 15, 16])), timeout=900)
+    run_both(j, "glyph-metric", metric_lines(ctx.rng("metric"), shim, ctx.budget(2128, 2128)), timeout=900)
     run_both(j, "table-fill", fill_lines(ctx.rng("fill"), ctx.budget(150, 467)), timeout=900)
     run_both(j, "long", long_lines(ctx.rng("long"), ctx.budget(60, 467), ctx.budget(1, 3), ctx.budget([1, 65536], [1, 65536, 300000])),
              timeout=ctx.budget(900, 3000), nproc=8)
